@@ -15,6 +15,7 @@ import re
 import time
 
 from vlib import core, jsonkit as jk
+from vlib import translate
 
 IMPORTS = "From QV Require Import Json.JsonCheck Json.Cover."
 KCODEC = {"jssp": "KJssp", "layer": "KLayer", "evqe": "KEvqe", "result": "KResult"}
@@ -469,6 +470,7 @@ def public(case):
 
 
 def run(ctx):
+    translate.check_link(ctx, "C18")  # regenerate Gallina from /repo's current serialization modules; link lemmas coq/link/C18Link.v
     ctx.rule = ("random constructible objects of every class the four encoder/decoder pairs claim (names with quotes, unicode, control "
                 "characters and marker-key spellings; ints where floats are documented, integer-valued floats, denormals; None fields; empty "
                 "collections; duplicate hash-equal individuals; representatives inside/outside the population; schedule dicts in any order; "
@@ -573,6 +575,8 @@ def run(ctx):
 
 
 def replay(ctx, payload):
+    if translate.is_link_replay(payload) and not payload.get("failing_input"):
+        return translate.replay(ctx, payload, "C18")
     c = payload.get("case") or payload.get("failing_input")
     g = do_case(ctx, c)
     for v in ctx.violations:
